@@ -119,7 +119,7 @@ func TestC09(t *testing.T) {
 			var mu sync.Mutex
 			addErr := func(x string) { mu.Lock(); s.Errs = append(s.Errs, x); mu.Unlock() }
 			e.Call("h", st, map[string]any{"id": id})
-			ok, el, dump := within(3*brokerH, func() {
+			ok, el, dump := within(2*brokerH, func() {
 				switch name {
 				case "dial-noaccept":
 					addErr(pr.dialOnce(side, id))
